@@ -89,6 +89,7 @@ type Config struct {
 	MaxPenalty       uint64 `json:"max_penalty,omitempty"`
 	TwoValidators    bool   `json:"two_validators,omitempty"`
 	Seed             []byte `json:"seed,omitempty"` // header AppHash = selection seed
+	BaselineZero     bool   `json:"baseline_zero,omitempty"` // Baseline = 0 (Baseline: 0 means "default 1")
 	FastUnbond       bool   `json:"fast_unbond,omitempty"`   // staking unbonding time 10 s (two blocks)
 	MaxValidators    uint32 `json:"max_validators,omitempty"`
 }
@@ -230,6 +231,9 @@ func Genesis(enc cosmoscmd.EncodingConfig, actors []*Actor, cfg Config) (app.Gen
 	ng.Pool.AccPledgePerByte = sdk.NewInt64DecCoin(Denom, 0)
 	ng.Params.BlockReward = sdk.NewInt64Coin(Denom, cfg.BlockReward)
 	ng.Params.Baseline = sdk.NewInt64Coin(Denom, cfg.Baseline)
+	if cfg.BaselineZero {
+		ng.Params.Baseline = sdk.NewInt64Coin(Denom, 0)
+	}
 	if cfg.APY != "" {
 		ng.Params.AnnualPercentageYield = cfg.APY
 	}
